@@ -107,7 +107,7 @@ func Play(beh M, rng *rand.Rand, proj *Projection) ([]M, error) {
 			x.Log.Append(mem.Ev{"k": "wedged", "conn": conn.ID})
 		}
 	}
-	x.Lis.Close()
+	x.Shutdown()
 	// the user's global parameter map after the run (must be untouched)
 	x.Log.Append(mem.Ev{"k": "x-global", "conn": conn.ID, "m": paramsObj(x.Global)})
 	p := &Projector{Conn: conn.ID, Proj: proj, SkipPre: proj != nil && proj.SkipPreamble}
